@@ -139,7 +139,7 @@ def unitLine (lhs rhs : String) : String :=
         match parseMany parseUConst k rest with
         | some (unit, []) =>
           let want := (rhs.splitOn " ").filter (· ≠ "")
-          match GoluaVerif.Model.Refactor.refactor 64 unit p with
+          match GoluaVerif.Model.Refactor.refactor 1024 unit p with
           | .ok c =>
             let got := showConst c
             (match firstDiffTok got want 0 with
